@@ -31,6 +31,7 @@ VACUITY_PATTERNS = ("undefined function should be unreachable",
                     "no body for callee", "no body for function")
 
 MEM_BUDGET_GB = int(os.environ.get("VERIF_MEM_GB", "44"))
+TRACE_JSON_LIMIT = int(os.environ.get("VERIF_TRACE_MB", "150")) << 20
 NCPU = int(os.environ.get("VERIF_JOBS", str(min(16, os.cpu_count() or 4))))
 
 
@@ -353,6 +354,10 @@ def _after_instrument(u, case, tier, canary, wd, res, cmd, fn):
         if rc_ is None:
             raise Infra("cbmc " + txt_)
         try:
+            if with_trace and os.path.getsize(os.path.join(wd, "cbmc.json")) > TRACE_JSON_LIMIT:
+                # a counterexample trace of this size cannot be parsed without the driver itself running
+                # out of memory (thorough tier, 32 GB seen); the failure is reported without inputs
+                return None, dt_
             return json.load(open(os.path.join(wd, "cbmc.json"))), dt_
         except Exception:
             tail = open(os.path.join(wd, "cbmc.json"), errors="replace").read()[-800:]
@@ -375,7 +380,11 @@ def _after_instrument(u, case, tier, canary, wd, res, cmd, fn):
                     return True
         return False
     if _failing_other_than_canary(doc):
-        doc, dt2 = run_cbmc(True)
+        doc2, dt2 = run_cbmc(True)
+        if doc2 is not None:
+            doc = doc2
+        else:
+            res["trace_dropped"] = "counterexample trace larger than %d MB, not parsed" % (TRACE_JSON_LIMIT >> 20)
         res["solver_s"] = round(dt + dt2, 2)
     results = None
     msgs = []
